@@ -86,6 +86,10 @@ type CustomScan2 struct {
 	processors.DefaultTagScanDefinitionRegistryPostProcessor
 }
 
+// one scanner instance may serve many containers of a process (a package-level processor value): every container
+// gets its own definitions from it
+var sharedScan, sharedScan2 = newScan(), newScan2()
+
 func newScan2() *CustomScan2 {
 	return &CustomScan2{processors.DefaultTagScanDefinitionRegistryPostProcessor{NodeType: customNodeType, Tag: "mytag2"}}
 }
@@ -477,8 +481,11 @@ func TestEmbedding(t *testing.T) {
 			}
 		}
 		pp := &CustomPP{ReturnHandled: rapid.Bool().Draw(t, "returnhandled"), Second: &CustomPP2{}}
-		scan := newScan()
-		comps := append(providers(), flat.Interface(), nested.Interface(), pp, scan, pp.Second, newScan2())
+		var scan, scan2 any = newScan(), newScan2()
+		if rapid.Bool().Draw(t, "sharedscanners") {
+			scan, scan2 = sharedScan, sharedScan2
+		}
+		comps := append(providers(), flat.Interface(), nested.Interface(), pp, scan, pp.Second, scan2)
 		comps = rapid.Permutation(comps).Draw(t, "regorder")
 		root := &node{Leaf: -1, Children: tree}
 		var lss []string
@@ -694,7 +701,7 @@ func TestStaticShadowAndLazy(t *testing.T) {
 	for round := 0; round < 10; round++ {
 		st, su, lt, ld := &ShadowTagged{}, &ShadowUntagged{}, &LazyTagged{}, &LazyTaggedDeep{}
 		pp := &CustomPP{}
-		comps := append(providers(), st, su, lt, ld, pp, newScan())
+		comps := append(providers(), st, su, lt, ld, pp, sharedScan) // the same scanner instance in every round
 		out := kit.RunApp(app.SetComponents(comps...), app.SetConfigLoader(loader.NewRawLoader([]byte(cfg))))
 		if !out.OK() {
 			t.Fatalf("C11: start failed: %v", out)
